@@ -83,6 +83,8 @@ func (o GOp) String() string {
 		c = " if{" + strings.Join(ks, ",") + "}"
 	}
 	switch o.Kind {
+	case "ClashRetry":
+		return fmt.Sprintf("ClashRetry[%s](%s/%q blocked by %q, then %q deleted and the upload retried)", o.Proto, o.Bucket, o.Name, o.Name2, o.Name2)
 	case "Upload":
 		s := fmt.Sprintf("Upload[%s](%s/%q,%q,ct=%q", o.Proto, o.Bucket, o.Name, trunc(o.Data), o.Meta.ContentType)
 		if o.Meta.Md5Hash != "" {
@@ -325,6 +327,8 @@ func (w *gcsWorld) step(o *GOp) (string, string) {
 		return w.stepUpload(o)
 	case "Upload2":
 		return w.stepUpload2(o)
+	case "ClashRetry":
+		return w.stepClashRetry(o)
 	case "Get":
 		rq := gcs.ReqGetMedia(o.Form, o.Bucket, o.Name)
 		if o.AcceptGzip {
@@ -830,6 +834,89 @@ func (w *gcsWorld) stepUpload2(o *GOp) (string, string) {
 		}
 		if bad := mdl.CommitWrite(o.Bucket, s.name, s.data, *exp.View, false, got.Generation); bad != "" {
 			return fail("generation", "%s", bad)
+		}
+	}
+	return "", ""
+}
+
+// stepClashRetry: the object Name2 exists and makes Name unrepresentable in a file system (one is a directory of
+// the other). The upload of Name is attempted (it cannot succeed on the file store; how it fails is not judged),
+// the blocker is deleted - from here on Name is an ordinary name - and the upload is tried again: by a new request
+// (Proto media | multipart | resumable) or, Proto "session", by re-sending the final chunk of the SAME resumable
+// session, which is what a client does after a 5xx answer. The retry either stores the object exactly as the model
+// says or fails leaving nothing behind; afterwards the ordinary state comparison applies.
+func (w *gcsWorld) stepClashRetry(o *GOp) (string, string) {
+	mdl := w.model
+	fail := func(class, f string, a ...interface{}) (string, string) {
+		return fmt.Sprintf("%s: ", o.String()) + fmt.Sprintf(f, a...) + "\n   http: " + strings.Join(w.trace, "\n         "), class
+	}
+	if mdl.View(o.Bucket, o.Name2) == nil {
+		return fail("internal", "the blocking object does not exist")
+	}
+	cr := fmt.Sprintf("bytes 0-%d/%d", len(o.Data)-1, len(o.Data))
+	meta := o.Meta
+	if o.Proto == "media" {
+		meta = gcs.ObjMeta{ContentType: o.Meta.ContentType} // the simple upload carries nothing but the content type
+	}
+	var uri string
+	attempt := func() gcs.HTTPResp {
+		switch o.Proto {
+		case "media":
+			return w.do(gcs.ReqUploadMedia(o.Bucket, o.Name, o.Data, meta, nil, false))
+		case "multipart":
+			return w.do(gcs.ReqUploadMultipart(o.Bucket, o.Name, o.Data, meta, nil, false))
+		}
+		if uri == "" || o.Proto == "resumable" {
+			r := w.do(gcs.ReqResumableStart(o.Bucket, o.Name, meta, nil))
+			if r.Panic != "" || r.Status != 200 {
+				return r
+			}
+			u, err := url.Parse(r.Header.Get("Location"))
+			if err != nil || u.Query().Get("upload_id") == "" {
+				return gcs.HTTPResp{Status: -1, Panic: "no usable session URL"}
+			}
+			uri = u.RequestURI()
+		}
+		return w.do(gcs.ReqResumableChunk(uri, o.Data, cr, false, false))
+	}
+	r1 := attempt()
+	if r1.Panic != "" {
+		return fail("panic", "first attempt: %s", r1.Panic)
+	}
+	if r1.Status < 400 {
+		return fail("clash-status", "the object cannot exist next to %q, but its upload is answered %d", o.Name2, r1.Status)
+	}
+	del := GOp{Kind: "Delete", Bucket: o.Bucket, Name: o.Name2}
+	if m, cl := w.step(&del); m != "" {
+		return m, cl
+	}
+	r2 := attempt()
+	if r2.Panic != "" {
+		return fail("panic", "retry: %s", r2.Panic)
+	}
+	exp := mdl.ExpectUpload(o.Bucket, o.Name, o.Data, meta, nil)
+	if r2.Status >= 400 && o.Proto == "session" {
+		return "", "" // the session did not survive the failed attempt: nothing may have been stored (state comparison)
+	}
+	if !inInts(r2.Status, exp.Statuses) || !exp.Performed {
+		return fail("status", "retry after the blocker is gone: status %d %.200s, want one of %v", r2.Status, r2.Body, exp.Statuses)
+	}
+	got, err := gcs.ParseObject(r2.Body)
+	if err != nil {
+		return fail("body", "cannot parse object: %v", err)
+	}
+	if d := gcs.DiffView(*got, *exp.View, true); d != "" {
+		return fail("resp", "response of the retried upload differs: %s", d)
+	}
+	if bad := mdl.CommitWrite(o.Bucket, o.Name, o.Data, *exp.View, false, got.Generation); bad != "" {
+		return fail("generation", "%s", bad)
+	}
+	// no bucket appears out of nowhere (e.g. one named like the first segment of the object name)
+	for _, bn := range []string{o.Name, strings.SplitN(o.Name, "/", 2)[0]} {
+		if _, ok := mdl.Buckets[bn]; !ok && !strings.Contains(bn, "/") {
+			if r := w.do(gcs.ReqGetBucket(bn)); r.Status == 200 {
+				return fail("phantom-bucket", "a bucket %q exists that nobody created", bn)
+			}
 		}
 	}
 	return "", ""
